@@ -163,14 +163,27 @@ Theorem copy_after_class_mutation_has_extra_cell :
   nth 2 (root_views s1 3) CCut <> nth 1 (root_views s1 3) CCut.
 Proof. vm_compute. split; [reflexivity|]. split; [reflexivity|]. intros E; discriminate E. Qed.
 
-(* ---- #21: reindex copies cell VALUES; for an object-dtype series (the Trace objects of a tracer-extended model) the
-   value is a reference: result and original share the Trace objects.  (C12's subject; listed here because reindex
-   advertises "a copy of the current object") *)
-Theorem reindex_shares_object_cells_refuted :
-  let s1 := run_events K0 s_al [EReindex 1 (new_list [2002; 2004; 2006; 2008]) 4 [(0, 1); (1, 2)]
-                                         [(N_status, 101); (N_iterations, -2); (201, 0); (203, 0); (205, 0); (N_trace, 121)]] in
-  length (sroots s1) = 3%nat /\ sharing s1 <> [].
-Proof. vm_compute. split; [reflexivity | intros E; discriminate E]. Qed.
+(* ---- #21 repaired (fixes af303e7 / 28b2a9a): reindex of a traced model (object-dtype `trace` series holding a non-empty Trace)
+   onto an overlapping span: no root shares anything with another; the result has its own Trace objects and its own span, also when
+   the span handed in is the ORIGINAL's own span list (caller-shared argument: deep-copied) *)
+Definition s_al_list : state :=
+  run_hevents K0 (run_events K0 (s0 1 None) [EInit 0 (args list_span)]) [HOps 1 [OTraceT 1 501 TMNames false]].
+
+Example ex_reindex_shares_nothing :
+  let ev := EReindex 1 (new_list [2002; 2004; 2006; 2008]) 4 [(0, 1); (1, 2)]
+                     [(N_status, 101); (N_iterations, -2); (201, 0); (203, 0); (205, 0); (N_trace, 121)] in
+  let s1 := run_events K0 s_al [ev] in
+  event_ok ev = true /\ length (sroots s1) = 3%nat /\ sharing s1 = [] /\
+  (* the carried-over Trace is a COPY: recording into the result leaves the original's Trace as it was *)
+  (let s2 := run_hevents K0 s1 [HOps 2 [OTraceT 0 507 TMNames false; OPathAppend [V N_trace; 0; A N_names] 777]] in
+   nth 1 (root_views s2 7) CCut = nth 1 (root_views s1 7) CCut /\ nth 2 (root_views s2 7) CCut <> nth 2 (root_views s1 7) CCut) /\
+  (* reindex(obj.span) with a LIST span: the span object of the original (location of its `span` cell) handed in by reference *)
+  (let own := match nth_error (sh s_al_list) 5 with
+              | Some o => match cell_get (A N_span) (ocells o) with Some (VR l) => l | _ => O end | None => O end in
+   let s3 := run_events K0 s_al_list [EReindex 1 (SArg own) 3 [(0, 0); (1, 1); (2, 2)]
+                                               [(N_status, 101); (N_iterations, -2); (201, 0); (203, 0); (205, 0); (N_trace, 121)]] in
+   length (sroots s3) = 3%nat /\ sharing s3 = []).
+Proof. vm_compute. repeat split; try reflexivity. intros E; discriminate E. Qed.
 
 (* the three copy routes of a model never share: same history, copy instead of reindex *)
 Example ex_copy_of_traced_model_disjoint : sharing (run_events K0 s_al [ECopy 1]) = [].
